@@ -14,6 +14,7 @@
 //	                 and the quorum-completing third vote; C: one proof transaction
 //
 // Oracle (reference model: registry set, blacklist set, counters):
+//
 //	a tx releases a message            ⇒ X,Y registered ∧ neither blacklisted ∧ router(X) active at h
 //	all of that holds                  ⇒ the import is accepted (whitelisting restores, registration enables)
 //	a vote is recorded without release ⇒ X registered ∧ X not blacklisted ∧ router(X) active
@@ -373,4 +374,3 @@ func main() {
 		"network": "main net; heights 18822999 / 18823000; routers: vote (A,B), hsc (C)",
 	})
 }
-
